@@ -464,7 +464,7 @@ def conformance(ctx, stmts, plan_sel, e2e_sel, data_name, st, max_records=None, 
 def model_jobs(tier):
     if tier == "quick":
         return [("DistPlan_quick.cfg", "quick feature space x every table (multiset of rows) of <= 2 rows over {0,1} x {NULL,1,2}, 2 dimension tables, 2 shards")]
-    return [("DistPlan_thorough_small.cfg", "full feature space x every table of <= 2 rows, 4 dimension tables, 2 shards, refusals judged as gathers"),
+    return [("DistPlan_thorough.cfg", "full feature space x every table of <= 2 rows, 4 dimension tables, 2 shards, refusals judged as gathers"),
             ("DistPlan_thorough_rows3.cfg", "quick feature space x every table (multiset of rows) of <= 3 rows"),
             ("DistPlan_thorough_nullkey.cfg", "quick feature space x every table (multiset of rows) of <= 2 rows with NULL keys and 0 values")]
 
